@@ -115,6 +115,8 @@ pub struct ProdLog {
     pub resumed: AtomicU32,
     /// stamp taken while the producer thread unwinds (0: it did not panic)
     pub panicked_at: AtomicU64,
+    /// every fourth send of this producer is issued from a destructor while its thread unwinds from a panic
+    pub some_sends_while_unwinding: AtomicBool,
 }
 struct PanicStamp(Arc<ProdLog>);
 impl Drop for PanicStamp { fn drop(&mut self) { if std::thread::panicking() { self.0.panicked_at.store(stamp(), SeqCst) } } }
@@ -139,6 +141,7 @@ pub fn producer_body(ch: Arc<dyn Chan>, entry: Entry, ids: Vec<u64>, retries: u3
     Box::new(move || {
         log.tid.store(sched::my_tid() as u32, SeqCst);
         let _ps = PanicStamp(log.clone());
+        let mut nsend = 0u32;
         for id in ids {
             let mut attempt = 0;
             loop {
@@ -146,7 +149,10 @@ pub fn producer_body(ch: Arc<dyn Chan>, entry: Entry, ids: Vec<u64>, retries: u3
                 log.open_id.store(id, SeqCst);
                 log.open_call.store(t0, SeqCst);
                 RESUMED_AT.with(|r| r.set(0));
-                let r = send_via(&*ch, entry, id);
+                nsend += 1;
+                // ("goodbye" events: when asked, every fourth send is issued from a destructor while the thread unwinds from a panic -- not the suspended
+                //  async sends, whose suspension is a scheduling matter of the harness)
+                let r = if log.some_sends_while_unwinding.load(SeqCst) && nsend % 4 == 0 && !matches!(entry, Entry::SendAsyncSuspended | Entry::SendAsyncGated) { during_unwind(|| send_via(&*ch, entry, id)) } else { send_via(&*ch, entry, id) };
                 let t1 = stamp();
                 log.open_call.store(0, SeqCst);
                 let resumed = RESUMED_AT.with(|r| r.get());
@@ -165,6 +171,15 @@ pub fn producer_body(ch: Arc<dyn Chan>, entry: Entry, ids: Vec<u64>, retries: u3
         }
         log.done.store(true, SeqCst);
     })
+}
+
+/// runs `f` the way a failing task runs its clean-up: from a destructor, while the thread unwinds from a panic (raised without the panic hook, caught right here)
+pub fn during_unwind<R>(f: impl FnOnce() -> R) -> R {
+    struct D<F: FnOnce()>(Option<F>);
+    impl<F: FnOnce()> Drop for D<F> { fn drop(&mut self) { if let Some(f) = self.0.take() { f() } } }
+    let mut out = None;
+    let _ = std::panic::catch_unwind(std::panic::AssertUnwindSafe(|| { let _d = D(Some(|| out = Some(f()))); std::panic::resume_unwind(Box::new("the task failed")) }));
+    out.expect("the clean-up ran")
 }
 
 /// drops a stream -- normally, or as a failing task does: while the thread unwinds from a panic (raised without the panic hook, caught right here)
